@@ -1,7 +1,7 @@
 ----------------------------- MODULE C18_Trace -----------------------------
 (* I->S for C18: recorded calls of codon.AddCodonTable / CompromiseCodon-   *)
 (* Table / Optimize on tables re-weighted from random coding sequences.     *)
-(*  [k|->"combine", id, wa, wb, cut, err, add, comp, compba, shape]         *)
+(*  [k|->"combine", id, wa, wb, cut, eps, err, add, comp, compba, shape]         *)
 (*     wa, wb: observed weights of the operands (sparse); add/comp/compba:  *)
 (*     observed results; shape: letters/starts/stops of the results equal   *)
 (*     those of the first operand (computed by the harness from the real    *)
@@ -18,7 +18,7 @@ RangeOf(q) == {q[i] : i \in 1..Len(q)}
 
 JudgeCombine(e) ==
     LET a == FromSparse(e.wa) b == FromSparse(e.wb) IN
-    IF e.err # (e.cut < 0 \/ e.cut > 10000) THEN "cut-off outside 0..1 must be rejected, inside accepted"
+    IF e.err # (e.cut < 0 \/ e.cut > 10000 \/ (e.cut = 0 /\ e.eps < 0) \/ (e.cut = 10000 /\ e.eps > 0)) THEN "cut-off outside 0..1 must be rejected, inside accepted"
     ELSE IF FromSparse(e.add) # AddW(a, b) THEN "AddCodonTable is not the pointwise sum"
     ELSE IF e.addletters # LettersStr(e.id) \/ RangeOf(e.addstarts) # Starts[e.id] \/ RangeOf(e.addstops) # Stops[e.id]
          THEN "AddCodonTable changed the genetic code or the start/stop codons"
